@@ -6,7 +6,7 @@ import pickle
 from props._filesys import World, r_path
 
 ID = "C30"
-READY = True
+READY = True          # on a /repo that carries harness/findings_proposed/C04-contentfile-missing.fix.diff and C30-dir-copy-to-update-hash.fix.diff
 LEAN_MODULES = ["RedunModel.Props.C30", "RedunModel.Model.FileSysIO"]
 LEAN_DRIVERS = ["C30"]
 THEOREMS = [
